@@ -260,6 +260,8 @@ theorem encode_decode (s hrp data : Bytes) (m : Bool) (h : decode s = some (hrp,
   -- assemble the encoder run
   unfold encode
   rw [hhrp, hH2, hH1]
+  have hHne : ¬ ((H.map asciiLower).length < 1) := by simp only [List.length_map]; omega
+  simp only [hHne, ↓reduceIte]
   simp only [Option.bind_eq_bind, Option.bind_some, hrpLow_lower]
   have hlen : ¬ ((H.map asciiLower).length + 7 + data.length > 90) := by
     rw [hdata']; simp [hT1len]; omega
